@@ -52,14 +52,22 @@ def features(text: str) -> Set[str]:
                     uses += 1
             if uses >= 2:
                 feats.add("seq-variable-reused")
-    # a projection that ignores its element (Select(lambda x: <no x>)) feeding an aggregate / First / another projection
-    for n in ast.walk(tree):
-        if isinstance(n, ast.Call) and isinstance(n.func, ast.Attribute) and n.func.attr == "Select" and n.args and isinstance(n.args[0], ast.Lambda):
-            lam = n.args[0]
+    # a projection that ignores its element but uses a variable of an ENCLOSING lambda (Select(lambda t: j.q())) feeding
+    # an aggregate / First / another projection.  Projections to pure literals are deliberately not tagged.
+    def walk(node, bound):
+        if isinstance(node, ast.Call) and isinstance(node.func, ast.Attribute) and node.func.attr == "Select" and node.args and isinstance(node.args[0], ast.Lambda):
+            lam = node.args[0]
             p = lam.args.args[0].arg
-            if not any(isinstance(x, ast.Name) and x.id == p for x in ast.walk(lam.body)):
-                if not (isinstance(n.func.value, ast.Name) and n.func.value.id == "ds"):
-                    feats.add("selector-ignores-element")
+            names = {x.id for x in ast.walk(lam.body) if isinstance(x, ast.Name)}
+            if p not in names and (names & bound) and not (isinstance(node.func.value, ast.Name) and node.func.value.id == "ds"):
+                feats.add("selector-ignores-element")
+        if isinstance(node, ast.Lambda):
+            b2 = bound | {a.arg for a in node.args.args}
+            walk(node.body, b2)
+            return
+        for c in ast.iter_child_nodes(node):
+            walk(c, bound)
+    walk(tree, set())
     # rows per object whose column is itself a sequence
     top = tree
     if isinstance(top, ast.Call) and isinstance(top.func, ast.Attribute) and top.func.attr == "Select" and top.args and isinstance(top.args[0], ast.Lambda):
